@@ -483,6 +483,7 @@ Theorem rechunker_preserves (fs : fsys bytes) src dst tmp replace comp tgt rechu
        Forall (fun fs' => lookup src fs' = Some s \/ lookup dst fs' = Some s' \/ lookup src fs' = Some s') tr).
 Proof.
   intros Hsd Hst Hdt Hl G Htg. unfold rechunker_run. rewrite Hl.
+  destruct (src =? dst) eqn:Esd; [lia|]. unfold rechunker_unguarded. rewrite Hl.
   set (md := opt_set_target (opt_set_comp s comp) tgt).
   assert (Hmc : md_comp md = match comp with Some k => k | None => md_comp s end).
   { subst md. destruct tgt, comp; reflexivity. }
